@@ -84,7 +84,7 @@ class Stubs:
         table = {
             'str': L.is_Str(v), 'int': z3.Or(L.is_Int(v), L.is_Bool(v)), 'bool': L.is_Bool(v),
             'float': L.is_Float(v), 'decimal.Decimal': L.is_Dec(v), 'list': L.is_List(v),
-            'dict': L.is_Dict(v), 'tuple': L.is_Tuple(v), 'slice': L.is_Slice(v),
+            'dict': L.is_Dict(v), 'tuple': L.is_Tuple(v), 'slice': L.is_Slice(v), 'NoneType': L.is_None(v),
             'typing.Callable': z3.Or(L.is_Fun(v), L.is_Type(v)),
             'typing.Iterable': z3.Or(L.is_Str(v), L.is_List(v), L.is_Dict(v), L.is_Tuple(v),
                                      z3.And(L.is_Opaque(v), z3.Or(Val.okind(v) == L.OK['view'],
@@ -93,6 +93,10 @@ class Stubs:
         }
         if n in table:
             return table[n]
+        if t.kind in ('builtin', 'extclass', 'ext'):
+            # a type none of the modelled values has: only an opaque host object can be an instance
+            uf = L.UF('isinstance_' + n.replace('.', '_'), Val, B)
+            return z3.And(z3.Or(L.is_Opaque(v), L.is_Obj(v)), uf(v))
         raise Unsupported('isinstance against %s' % n)
 
     # ------------------------------------------------------------------ static calls
@@ -123,6 +127,12 @@ class Stubs:
         if isinstance(v, z3.ExprRef) or isinstance(v, (St, Closure, BoundMethod)):
             return L.BoolV(self.isinstance_formula(ex, v, t))
         raise Unsupported('isinstance of %r' % (v,))
+
+    def b_type(self, ex, args, kwargs):
+        if len(args) == 1 and isinstance(args[0], z3.ExprRef) and L.is_true(L.simp(L.is_None(args[0]))):
+            return St('builtin', 'NoneType')
+        ex.event('forbidden_call', 'type')
+        return self.unknown_call(ex, 'builtin type', [ex.to_val(a) for a in args if not isinstance(a, Pack)])
 
     def b_len(self, ex, args, kwargs):
         (v,) = args
